@@ -188,8 +188,11 @@ func decodeLeiosTransactionReferences(
 			err,
 		)
 	}
-	refs := make([]LeiosTransactionReference, 0, count)
-	seen := make(map[Blake2b256]struct{}, count)
+	// The declared count is attacker-controlled; every entry takes more than
+	// one byte of input, so the input length bounds the real entry count.
+	capHint := min(count, len(raw))
+	refs := make([]LeiosTransactionReference, 0, capHint)
+	seen := make(map[Blake2b256]struct{}, capHint)
 	for idx := range count {
 		var hashBytes cbor.ByteString
 		if _, _, err := dec.Decode(&hashBytes); err != nil {
